@@ -3,6 +3,7 @@ import math
 import numpy as np
 from hypothesis import strategies as st, assume
 
+from ..fuzz import fuzzed
 from ..core import Obligation, Out
 from .. import cat
 from ..strat import uni, logu
@@ -181,3 +182,5 @@ def check_2d(case):
 OBLIGATIONS = [
     Obligation('steady-2d-riemann', s2d_case(), check_2d, quick=400, thorough=15000, expected_exc=(ValueError, UnboundLocalError, IndexError)),
 ]
+# coverage-guided supplement (atheris / libFuzzer over the same strategy and oracle; see vp/fuzz.py)
+OBLIGATIONS.append(fuzzed([o for o in OBLIGATIONS if o.name == 'steady-2d-riemann'][0], quick=0, thorough=60000, modules=('exactpack.solvers.riemann',)))
